@@ -196,6 +196,7 @@ type vfWorld struct {
 	cacheSynced   map[string]bool
 	agentSim      *vfAgent
 	okta          *simOkta
+	lockoutPause  time.Duration
 	idp           *simIdP
 	pendingMods   []string // request modifiers of the step being prepared (precookie:, fwd:, peer:)
 	listenerUp    chan struct{} // closed when the emulated main() received SignerIsReady (the service listener starts then)
@@ -638,6 +639,7 @@ type vfResp struct {
 }
 
 type vfReqCtx struct {
+	ended          time.Time // simulated instant at which the handler returned
 	started        time.Time // simulated instant at which the handler was entered (requests can take simulated seconds under storage faults)
 	req            *vfReq
 	truth          []vfClaim // factors really verified during this request (from the simulated backends)
@@ -824,6 +826,7 @@ func (c *vfCall) exec() {
 			w.svc.ServeHTTP(c.rec, c.req)
 		}
 	}()
+	c.ctx.ended = time.Now()
 	w.setCtx(nil)
 }
 
